@@ -85,6 +85,17 @@ fn gen_multi(ch: &mut Ch, thorough: bool) -> Option<Case> {
     Some(Case { gen: "multi", vector: ch.vector(), ts, derived, entry })
 }
 
+/// every case of the two generators (used by C20 as well)
+pub fn all_cases(thorough: bool) -> (Vec<Case>, crate::explore::Stats) {
+    let mut cases = Vec::new();
+    let mut stats = crate::explore::Stats::default();
+    for g in [gen_single as fn(&mut Ch, bool) -> Option<Case>, gen_multi] {
+        let st = explore(|ch| g(ch, thorough), |_, c| cases.push(c));
+        stats.add(&st);
+    }
+    (cases, stats)
+}
+
 pub fn run(ctx: &Ctx, rep: &mut Report) {
     let thorough = ctx.tier.is_thorough();
     rep.rule = "terminal state = (trait set in {Hash | Hash+PartialEq+Eq | all five | Hash+PartialEq}, entry point, container x context, one of the 112 (hash, eq, ord) combinations accepted by the reference) or a multi-field struct/enum over {plain, hash(ignore), eq(ignore), hash(key), eq(key), ord(key), hash(by)}; inner enumeration = every value of the product of the field domains, hashed into a recording Hasher; distinct by program text; non-trivial = at least one helper attribute and at least 2 distinct feeds".into();
